@@ -38,6 +38,7 @@ type CEnv struct {
 	bound  map[string]CVal
 	depth  int
 	wmEntry *Term
+	want    types.Type // expected type for untyped constants (spec bodies)
 	// side conditions produced while evaluating (definedness not checked)
 }
 
@@ -204,7 +205,11 @@ func (ce *CEnv) eval(e Expr) CVal {
 		return ce.binary(e)
 	case *ECond:
 		c := ce.eval(e.C)
-		a, b := ce.unify(ce.eval(e.A), ce.eval(e.B))
+		av, bv := ce.eval(e.A), ce.eval(e.B)
+		if av.Ty == nil && bv.Ty == nil && ce.want != nil {
+			av, bv = ce.coerce(av, ce.want), ce.coerce(bv, ce.want)
+		}
+		a, b := ce.unify(av, bv)
 		if a.T.Sort != b.T.Sort {
 			a, b = ce.nilAdapt(a, b)
 		}
@@ -764,6 +769,16 @@ func (ce *CEnv) call(e *ECall) CVal {
 			return ce.u.mapLen(ce.heap, x)
 		}
 		efail("len of %s", x.Ty)
+	case "elems":
+		// the whole element row of a slice (for frame statements elems(x) == old(elems(x)))
+		x := ce.eval(e.Args[0])
+		sl, ok := x.Ty.Underlying().(*types.Slice)
+		if !ok {
+			efail("elems of non-slice")
+		}
+		region, es := ce.elemRegion(sl.Elem())
+		rowS := arraySort(bvSort(64), es)
+		return CVal{T: mk(rowS, "select", ce.u.heapGet(ce.heap, region), sBase(x.T)), Ty: types.NewArray(sl.Elem(), 0)}
 	case "deref":
 		x := ce.eval(e.Args[0])
 		p, ok := x.Ty.Underlying().(*types.Pointer)
@@ -897,6 +912,7 @@ func (ce *CEnv) callSpec(sf *SpecFunc, e *ECall) CVal {
 			u.specN++
 			defName = fmt.Sprintf("%s@%d", sf.Name, u.specN)
 			u.specBusy[hkey] = defName
+			senv.want = rt
 			r := senv.eval(sf.Body)
 			if r.Ty == nil {
 				r = ce.coerce(r, rt)
